@@ -244,7 +244,7 @@ reg(Prop('C05', 'other', [lexical.rule_dec_table, lexical.rule_sep_mark, scanner
          "Decides: A4 (en/de decimal tables map each digit word to push(b\"d\"), zero synonyms share an arm, default NaN; fr/es/pt/it/nl apply_decimal forwards to apply verbatim), A5 (is_decimal_sep evaluates to true exactly on the separator word; the text template is {int}<mark>{dec} with mark '.' for English and ',' otherwise, filled with int.to_string(), dec.to_string() in that order; the value is the parse of {int}.{dec} of the same strings), B7-DECIMAL-ENTRY (decimal mode entered only for a rejected word, not already decimal, non-empty non-ordinal integer part, separator word; returns Incomplete — a separator with no number before it stays a word), B7-RESET-MUST (decimal formatter iff is_dec && !dec_part.is_empty(), otherwise the integer: nothing usable after the separator falls back to the integer; parser reset on every path), B6. Does NOT decide that arbitrary integer x fraction shapes round-trip (the fractional grammar of five languages goes through apply, i.e. C01's composition)."))
 reg(Prop('C08', 'other', [lexical.rule_guard_atoms, lexical.rule_block_contexts, lexical.rule_conj, lexical.rule_zero_arm, builder.rule_write_guarded],
          "Decides A7 GUARD-ATOMS: every arm of each sibling class carries the class guard and side assignments that keep adjacent numbers apart (en units peek(2) != 10; es additionally != 20; pt units/teens/tens !smaller_blocked, hundreds !only_multipliers with the flag definitions and three-way flag update; it units peek(2) != 10, un*/otto* is_free(2), ordinal stems is_empty; de/nl units is_free(2) + to_block = TENS, tens !blocked(TENS); fr un..six guarded by their own Excludable bit, dix sets UN_SIX, tens set UN; thousand is_range_free(3,5), million (6,8); success stores / failure clears the flags), A10 (the conjunction is only ever Err(Incomplete) under the class guard), A6 (zero arms), B5 (overlap refusal and zero-only-while-empty inside the builder). Does NOT decide the 10^4-pair outcome table per language nor the grouping of dictated digit strings (needs execution of the guards on concrete buffers)."))
-reg(Prop('C16', 'other', [lexical.rule_zero_arm, lexical.rule_len_zero_sensitive, builder.rule_write_guarded, builder.rule_field_coverage],
+reg(Prop('C16', 'other', [lexical.rule_zero_arm, lexical.rule_len_zero_sensitive, lexical.rule_zero_invariance, builder.rule_write_guarded, builder.rule_field_coverage],
          "Decides: A6 (zero words select an unguarded put(b\"0\"), synonyms share the arm), B5 (a zero is accepted only on an empty buffer and counted; all-zero input refused otherwise), B6 (len/is_empty/to_string include the zero count, is_null does not; reset clears it), A9 (no guard or arm condition tests DigitString::len() for equality with a constant — the zero-sensitive single-digit test behind the rejected 'zero un milione'). Does NOT decide convert(zero^k spell(n)) = 0^k decimal(n) for all n (C01's composition)."))
 
 reg(Prop('C18', 'other', [lexical.rule_o_annotate, lexical.rule_zero_arm, lexical.rule_dec_table, scanner.rule_scratch_hygiene, scanner.rule_scanner_structure],
